@@ -25,6 +25,7 @@ import (
 	"errors"
 	"fmt"
 	"io"
+	"net"
 	"os"
 	"path/filepath"
 	"runtime"
@@ -43,6 +44,7 @@ import (
 	"github.com/ErdemOzgen/blackdagger/internal/persistence"
 	dsclient "github.com/ErdemOzgen/blackdagger/internal/persistence/client"
 	"github.com/ErdemOzgen/blackdagger/internal/persistence/model"
+	dagsched "github.com/ErdemOzgen/blackdagger/internal/dag/scheduler"
 	"github.com/ErdemOzgen/blackdagger/internal/scheduler"
 	"github.com/ErdemOzgen/blackdagger/verifh/vh"
 )
@@ -196,6 +198,8 @@ type Case struct {
 	TRun1      int64             `json:"t_run1"`
 	TStop      int64             `json:"t_stop"`
 	SockAfter  bool              `json:"sock_after"`
+	IdleConnT  int64             `json:"idle_conn_t"`    // kind idle: when the idle connection to the run's socket was opened (-1 never)
+	Cache      *CacheObs         `json:"cache,omitempty"` // kind cache: the long-lived reader stream
 	RecentHas  bool              `json:"recent_has_run"` // the run is listed by GetRecentHistory after it has ended
 	LineBytes  int               `json:"line_bytes"`     // size of the final status as JSON
 	Infra      string            `json:"infra,omitempty"`
@@ -544,6 +548,34 @@ func runCase(c *Case, work string) {
 		}
 	}()
 	c.TStop = -1
+	c.IdleConnT = -1
+	var idle net.Conn
+	var idleMu sync.Mutex
+	if c.Kind == "idle" {
+		// a client that connects to the run's socket and sends nothing, for as long as the run lasts
+		go func() {
+			for i := 0; i < 4000 && !stop.Load(); i++ {
+				if _, err := os.Lstat(wf.SockAddr()); err == nil {
+					break
+				}
+				time.Sleep(500 * time.Microsecond)
+			}
+			time.Sleep(60 * time.Millisecond)
+			if conn, err := net.Dial("unix", wf.SockAddr()); err == nil {
+				idleMu.Lock()
+				idle = conn
+				c.IdleConnT = rc.now()
+				idleMu.Unlock()
+			}
+		}()
+	}
+	defer func() {
+		idleMu.Lock()
+		if idle != nil {
+			_ = idle.Close()
+		}
+		idleMu.Unlock()
+	}()
 	if c.Kind == "stop" || c.Kind == "stopcommit" {
 		go func() {
 			time.Sleep(time.Duration(c.StopAtMs) * time.Millisecond)
@@ -685,6 +717,10 @@ func genCase(k int, r *vh.Rng, kind string) *Case {
 				}
 			}
 		}
+	case "idle":
+		// one long step (longer than the socket client's 3 s timeout) while an idle connection to the run's socket is held open
+		c.Steps = genSteps(r, 1, true)
+		c.Steps[0].HoldMs = 4200 + r.Below(300)
 	case "huge":
 		// every status line exceeds 64 KiB (long step descriptions): readers with a line-length limit lose the run
 		c.Steps = genSteps(r, 2, true)
@@ -769,6 +805,7 @@ func inproc(outPath, tier, work, specs string) {
 	if specs != "" {
 		cases = readSpecs(specs)
 	} else {
+		add(1, "idle") // first: it lasts longest
 		add(nPlain, "plain")
 		add(nStop, "stop")
 		add(nRace, "race")
@@ -786,10 +823,129 @@ func inproc(outPath, tier, work, specs string) {
 			runCase(c, work)
 		}(c)
 	}
+	var cacheCases []*Case
+	if specs == "" {
+		nCache := 3
+		if tier == "thorough" {
+			nCache = 12
+		}
+		wg.Add(1)
+		go func() {
+			defer wg.Done()
+			for i := 0; i < nCache; i++ {
+				cacheCases = append(cacheCases, cacheStream(100000+i, work, vh.NewRng(seed).Fork(uint64(100000+i))))
+			}
+		}()
+	}
 	wg.Wait()
 	for _, c := range cases {
 		out.Put(c)
 	}
+	for _, c := range cacheCases {
+		out.Put(c)
+	}
+}
+
+// ---------------------------------------------------------------------------------------------
+// cache stream: a LONG-LIVED reader (one client, one JSONDB with its status cache - as the web server and the daemon have)
+// follows a run that appends its records within one wall-clock second and then dies without the shutdown compaction
+// (no Close).  After every append the reader must report the last persisted status.
+
+type CacheRead struct {
+	AfterWrite int    `json:"after_write"`
+	WallNs     int64  `json:"wall_ns"`
+	Err        string `json:"err,omitempty"`
+	St         *Proj  `json:"st"`
+	Want       *Proj  `json:"want"` // the last status written (as persisted; running is shown as failed by the reader)
+}
+
+type CacheObs struct {
+	Writes     int         `json:"writes"`
+	SameSecond bool        `json:"same_second"` // all appends and reads fell into one wall-clock second
+	Attempts   int         `json:"attempts"`
+	Reads      []CacheRead `json:"reads"`
+}
+
+func cacheStream(k int, work string, r *vh.Rng) *Case {
+	c := &Case{K: k, Kind: "cache", Handlers: []string{}, HandlerBad: map[string]bool{}, Steps: genSteps(r, 2+r.Below(2), true), IdleConnT: -1, TStop: -1}
+	for attempt := 1; attempt <= 4; attempt++ {
+		dir := filepath.Join(work, fmt.Sprintf("cache%d-%d", k, attempt))
+		name := fmt.Sprintf("q%d", k)
+		dags, data := filepath.Join(dir, "dags"), filepath.Join(dir, "data")
+		_ = os.MkdirAll(dags, 0o755)
+		_ = os.MkdirAll(data, 0o755)
+		file := filepath.Join(dags, name+".yaml")
+		if err := os.WriteFile(file, []byte(yamlOf(c, name, "none", dir)), 0o644); err != nil {
+			c.Infra = err.Error()
+			return c
+		}
+		wf, err := dag.Load("", file, "")
+		if err != nil {
+			c.Infra = "load: " + err.Error()
+			return c
+		}
+		mk := func() persistence.DataStores {
+			return dsclient.NewDataStores(dags, data, filepath.Join(dir, "suspend"), dsclient.DataStoreOptions{LatestStatusToday: true})
+		}
+		reader := client.New(mk(), "", dir, lg) // kept across the whole sequence
+		writer := mk().HistoryStore()
+		n := len(wf.Steps)
+		mkst := func(overall dagsched.Status, done int, running bool) *model.Status {
+			st := model.NewStatus(wf, nil, overall, os.Getpid(), nil, nil)
+			st.RequestID = fmt.Sprintf("req-cache-%d-%d", k, attempt)
+			for i, nd := range st.Nodes {
+				switch {
+				case i < done:
+					nd.Status = dagsched.NodeStatusSuccess
+				case i == done && running:
+					nd.Status = dagsched.NodeStatusRunning
+				}
+				nd.StatusText = nd.Status.String()
+			}
+			return st
+		}
+		// the sequence a run leaves: S0, one snapshot per step, the final status
+		seq := []*model.Status{mkst(dagsched.StatusNone, 0, false)}
+		for i := 0; i < n; i++ {
+			seq = append(seq, mkst(dagsched.StatusRunning, i, true))
+		}
+		seq = append(seq, mkst(dagsched.StatusSuccess, n, false))
+		// start just after a second boundary so that everything fits into one second
+		now := time.Now()
+		time.Sleep(time.Until(now.Truncate(time.Second).Add(time.Second + 20*time.Millisecond)))
+		t0 := time.Now()
+		obs := &CacheObs{Writes: len(seq), Attempts: attempt}
+		if err := writer.Open(wf.Location, t0, seq[0].RequestID); err != nil {
+			c.Infra = "open: " + err.Error()
+			return c
+		}
+		for i, st := range seq {
+			if err := writer.Write(st); err != nil {
+				c.Infra = "write: " + err.Error()
+				return c
+			}
+			got, err := reader.GetLatestStatus(wf)
+			rd := CacheRead{AfterWrite: i, WallNs: time.Now().UnixNano(), St: proj(got, false)}
+			if err != nil {
+				rd.Err = err.Error()
+			}
+			want := proj(st, false)
+			if want.St == int(dagsched.StatusRunning) {
+				want.St, want.Text = int(dagsched.StatusError), dagsched.StatusError.String()
+			}
+			rd.Want = want
+			obs.Reads = append(obs.Reads, rd)
+			time.Sleep(time.Duration(1+r.Below(4)) * time.Millisecond)
+		}
+		// the run's process is gone now: no Close, no compaction
+		obs.SameSecond = time.Now().Unix() == t0.Unix()
+		c.Cache = obs
+		_ = os.Remove(wf.SockAddr() + ".lock")
+		if obs.SameSecond {
+			break
+		}
+	}
+	return c
 }
 
 // ---------------------------------------------------------------------------------------------
